@@ -15,7 +15,33 @@ Spec: spec/Registry.tla (+ MC_C12, Trace_C12).
 
 import random
 
-_nontrivial = 0
+_ALIASES = {"second": "s", "kilosecond": "ks"}
+
+
+def _mentions(e):
+    """base symbols a resolving call (unit / contains) mentions"""
+    import re
+
+    txt = e.get("str") or e.get("sym") or ""
+    out = set()
+    for tok in re.findall(r"[A-Za-z]+", txt):
+        tok = _ALIASES.get(tok, tok)
+        out.add(tok[1:] if tok in ("kfoo", "kqux", "ks") else tok)
+    return out
+
+
+def _is_nontrivial(h):
+    """an edit of a symbol after some string mentioning it was resolved"""
+    seen = set()
+    for e in h:
+        if e["op"] in ("unit", "contains"):
+            seen |= _mentions(e)
+        elif e["op"] in ("add", "modify", "modifyq", "remove", "define"):
+            sym = e["sym"]
+            base = sym[1:] if sym in ("kfoo", "kqux", "ks") else sym
+            if base in seen:
+                return True
+    return False
 
 from common import MachineryFailure
 
@@ -71,6 +97,7 @@ def run(ck):
         return
 
     model_classes = set()
+    nontrivial = set()
     ck.cov["simulated_histories"] = 0
     ck.cov["bound"] = {}
     for alias in (False, True):
@@ -91,6 +118,7 @@ def run(ck):
         ck.cov["bound"][tag] = {"MaxLen": maxlen, "histories": len(hists)}
         cases = [{"h": r["h"], "alias": alias} for r in hists]
         ck.sample({"alphabet": tag, "history": cases[len(cases) // 2]["h"]})
+        nontrivial |= {(alias, str(c["h"])) for c in cases if _is_nontrivial(c["h"])}
         traces = ck.pmap("impl_c12", "observe", cases)
         bad = [t for t in traces if "_error" in t]
         if bad:
@@ -113,6 +141,7 @@ def run(ck):
         sims = [c for k in sorted(fam) for c in rnd.sample(fam[k], min(3, len(fam[k])))]
         if sims:
             ck.sample({"alphabet": tag, "simulated_history": sims[0]["h"]})
+            nontrivial |= {(alias, str(c["h"])) for c in sims if _is_nontrivial(c["h"])}
             traces = ck.pmap("impl_c12", "observe", sims)
             _validate(ck, traces, f"sim-{tag}", alias)
         ck.cov["simulated_histories"] += len(sims)
@@ -120,4 +149,4 @@ def run(ck):
     ck.cov["exhaustive"] = True
     ck.cov["evaluations"] = ck.cov["traces_validated_against_impl"]
     ck.cov["rule"] = "histories of registry calls exported by TLC (one per distinct state / transition of the bounded instance, plus simulated ones) replayed on a real registry; non-trivial = the history contains an edit (add/modify/remove/define) of a symbol after some string mentioning it was resolved"
-    ck.cov["distinct_nontrivial"] = _nontrivial
+    ck.cov["distinct_nontrivial"] = len(nontrivial)
